@@ -34,7 +34,7 @@ FUNCTIONS = ["stackscope._glue.glue_trio.unwrap_task", "stackscope._glue.glue_tr
 # block_where: -1 = block in the innermost body (after opening all nurseries);
 #              i  = do not go deeper than nursery i: fall out of its body and block in its __aexit__
 # body_end: how the nursery body ends (decides the bytecode shape the exiting-context analysis sees)
-BODY_ENDS = ["plain", "try_finally", "try_except", "if_return", "same_frame", "acm", "start"]
+BODY_ENDS = ["plain", "try_finally", "try_except", "if_return", "same_frame", "acm", "start", "start_pending"]
 
 
 def task_shapes(depth: int, fan: int, nmax: int, small_cap: int = 3, opt_cap: int = 4) -> List[Any]:
@@ -168,7 +168,33 @@ def run_tree(spec: Any, body_end: str, recurse: bool) -> Dict[str, Any]:
             if where != i:
                 await NEST[body_end](sp, i + 1, tid)
 
-    NEST = {"plain": nest_plain, "acm": nest_acm, "start": nest_start, "try_finally": nest_try_finally, "try_except": nest_try_except, "if_return": nest_if_return,
+    async def pending_task(sp: Any, task_status: Any = trio.TASK_STATUS_IGNORED) -> None:
+        t = trio.lowlevel.current_task()
+        tid = len(reg)
+        reg[tid] = (t, sp)
+        await nest_plain(sp, 0, tid)  # never calls started(): stays in the hidden nursery inside Nursery.start()
+
+    async def nest_start_pending(sp: Any, i: int, tid: int) -> Any:
+        """The LAST child of a nursery is started with `await nursery.start(...)` and has not called started() yet:
+        the parent is blocked inside Nursery.start(), the child lives in the nursery Trio opens there."""
+        nurseries, where = sp
+        if i == len(nurseries):
+            return await block()
+        async with trio.open_nursery() as n:
+            for child in nurseries[i][:-1]:
+                n.start_soon(run_plain_task, child)
+            for child in nurseries[i][-1:]:
+                await n.start(pending_task, child)
+            if where != i:
+                await nest_plain(sp, i + 1, tid)
+
+    async def run_plain_task(sp: Any) -> None:
+        t = trio.lowlevel.current_task()
+        tid = len(reg)
+        reg[tid] = (t, sp)
+        await nest_plain(sp, 0, tid)
+
+    NEST = {"plain": nest_plain, "acm": nest_acm, "start": nest_start, "start_pending": nest_start_pending, "try_finally": nest_try_finally, "try_except": nest_try_except, "if_return": nest_if_return,
             "same_frame": nest_same_frame}
 
     async def run_task(sp: Any) -> None:
@@ -239,7 +265,7 @@ def compare_task(st: Stack, task: Any, recurse: bool, res: Dict[str, Any]) -> Op
     # blocking point: the innermost visible frame is where the task waits
     vis = [f for f in st.frames if not f.hide]
     last = vis[-1].funcname
-    if last not in ("wait", "nest_plain", "nest_try_finally", "nest_try_except", "nest_if_return", "nest_acm", "nest_start", "_nested_child_finished", "__aexit__"):
+    if last not in ("wait", "nest_plain", "nest_try_finally", "nest_try_except", "nest_if_return", "nest_acm", "nest_start", "nest_start_pending", "start", "_nested_child_finished", "__aexit__"):
         return f"{task.name}: innermost visible frame is {last}"
     return None
 
